@@ -1,17 +1,16 @@
 /// Returns leap years between the year 0001 and the given year (exluding the year itself)
-pub(crate) fn leap_years(mut year: i32) -> u32 {
-    if year.is_positive() {
-        year -= 1;
-    }
-    if year.is_negative() {
-        year += 1;
-    }
-    let year_abs = year.abs();
-    let mut leaps = year_abs / 4 - year_abs / 100 + year_abs / 400;
-    if year.is_negative() {
-        leaps += 1;
-    }
-    leaps as u32
+pub(crate) fn leap_years(year: i32) -> u32 {
+    // Number of years of the 4/100/400 cycle between the year 0001 and the given year, excluding both.
+    // Negative years are counted from the year -0001 (the leap year 0 in astronomical numbering),
+    // which has to be added separately
+    let (years, year_zero) = if year.is_positive() {
+        (year - 1, 0)
+    } else if year >= -1 {
+        (0, 0)
+    } else {
+        (-(year + 2), 1)
+    };
+    (years / 4 - years / 100 + years / 400 + year_zero) as u32
 }
 
 /// Checks if the given year is a leap year
